@@ -76,3 +76,33 @@ CHECKS["C11"] = {
     "outside": ["inputs longer than the byte bound", "RSS / liveness of other sessions", "the 20-errors disconnect in Session.serve (goroutines)", "TLS sniffing"],
     "assumptions": [],
 }
+
+TX_STUB = {"pkgpath": "github.com/ProtonMail/gluon/db", "iface": "Transaction", "type": "verifTxBase"}
+
+CHECKS["C01"] = {
+    "explanation": "Symbolic execution of the snapshot/responder/flush pipeline (State.PushResponder, popResponders, flushResponses, targetedExists/expunge/fetch.handle, ExistsStateUpdate.Apply, snapshot and snapMsgList mutation, FlagSet operations, response.Merge) on a directly constructed State: symbolic initial view (ascending UIDs, symbolic flag sets), symbolic history of queued adds/removals/flag changes and flushes with and without expunge permission; a client mirror is rebuilt only from the returned untagged responses and compared with the snapshot at every probe.",
+    "harnesses": [
+        {"name": "pipeline", "pkg": "internal/state", "pkgname": "state", "entry": "VerifC01Pipeline",
+         "files": ["zz_verif_c01.go", "zz_verif_fixture.go"], "extra_overlay": {"internal/response/zz_verif_decode.go": "internal/response/zz_verif_decode.go"},
+         "gen_stubs": [TX_STUB],
+         "params": {"quick": grid(fam=[0], n=[1], k=[2]) + grid(fam=[1], n=[1], k=[3]) + grid(fam=[1, 2], n=[2], k=[2]), "thorough": grid(fam=[0], n=[1, 2], k=[2, 3]) + grid(fam=[1, 2], n=[1, 2], k=[4])},
+         "cover": []},
+    ],
+    "stubs": ["state.UserInterface -> verifUser (applies updates to the originating state immediately, queues for the others)", "db.Client/Transaction -> verifMiniDB (only ClearRecentFlagInMailboxOnMessage; any other call = stub missing)", "logrus -> no-op"],
+    "outside": ["wire rendering (String() via fmt)", "the goroutine forwarding idleCh to the socket", "concurrency between sessions (covered as arbitrary orders of queued responders)", "histories longer than k / views larger than n"],
+    "assumptions": ["UIDs of added messages are unused and above the initial content; a session's own appends carry UIDs above everything queued before"],
+}
+
+CHECKS["C05"] = {
+    "explanation": "Same pipeline harness as C01, judged for the C05 obligations: a flush without expunge permission (FETCH/STORE/SEARCH) returns no EXPUNGE and never shrinks the view, a flush with permission empties the responder queue, and the client mirror (which rejects an EXISTS for a re-added message arriving before the EXPUNGE of its removed instance as a count/UID inconsistency) stays equal to the snapshot; at quiescence the view equals the mailbox membership.",
+    "harnesses": [
+        {"name": "pipeline", "pkg": "internal/state", "pkgname": "state", "entry": "VerifC01Pipeline",
+         "files": ["zz_verif_c01.go", "zz_verif_fixture.go"], "extra_overlay": {"internal/response/zz_verif_decode.go": "internal/response/zz_verif_decode.go"},
+         "gen_stubs": [TX_STUB],
+         "params": {"quick": grid(fam=[1], n=[1], k=[3, 4]) + grid(fam=[1], n=[2], k=[3]), "thorough": grid(fam=[1], n=[1, 2], k=[4, 5])},
+         "cover": ["expunge-held-back", "expunge-queued", "exists-queued"]},
+    ],
+    "stubs": CHECKS["C01"]["stubs"],
+    "outside": ["the session-level command table (which commands flush with permitExpunge) - see DESIGN", "the [EXPUNGEISSUED] response code rendering"],
+    "assumptions": CHECKS["C01"]["assumptions"],
+}
